@@ -81,6 +81,7 @@ def job_find_label(ctx, jr, N, part):
     e.hooks['parser::parse_next_value'] = hv.hook
     st = State(True, {(0, 'meta'): meta_new(line)})
     fr = induct.capture(e, 'core', 'parser::find_label', [P(0, 'meta'), bufv, start], st)
+    fr.require(['index', 'iter', 'label'])
     it0 = fr.get(fr.st, 'iter')
     obs = [(fr.st.g, zand(zeq(fr.get(fr.st, 'index'), start), zeq(fr.get(fr.st, 'label').d, 0), zeq(fr.get(fr.st, 'end_index'), buf.len)), 'entry: index = start index, no label yet')]
     p = e.fresh_int('p', 0, N); e.assume(p <= buf.len)
@@ -162,6 +163,7 @@ def job_find_output_and_command(ctx, jr, N, part):
     e.assume(zand(r1['kind'] == 0, r1['next'] < buf.len))
     st = State(True, {(0, 'meta'): meta_new(line), (0, 'instr'): instr0})
     fr = induct.capture(e, 'core', 'parser::find_output_and_command', [P(0, 'meta'), bufv, start, P(0, 'instr')], st)
+    fr.require(['index', 'iter'], also=('*instruction',))      # *instruction: label arbitrary, output/command unset until the iteration that leaves the loop (checked: 'nothing set' on the back edge)
     it0 = fr.get(fr.st, 'iter')
     obs = []
     if part == 'C01': obs.append((fr.st.g, zeq(fr.get(fr.st, 'index'), r1['next']), 'the search for = starts where the first token ended'))
@@ -346,6 +348,7 @@ def job_parse_lines(ctx, jr, NL, K, part):
         return E(RESULT, zite(perr, 1, 0), {0: [added], 1: [errv]})
     e.hooks['parser::parse_line'] = h_line; e.hooks['preprocessor::run'] = h_pre
     fr = induct.capture(e, 'core', 'parser::parse_lines', [text, meta], State(True, {}))
+    fr.require(['instructions', 'line_number', 'iter'])
     it0 = fr.get(fr.st, 'iter')
     obs = [(fr.st.g, zand(zeq(fr.get(fr.st, 'instructions').len, 0), zeq(fr.get(fr.st, 'line_number'), 1), zeq(it0.f[1], 0)), 'entry: no instruction, line number 1, first line')]
     k = e.fresh_int('k', 0, NL); e.assume(k <= nl)
